@@ -11,5 +11,16 @@ import (
 func main() {
 	r := vf.NewRun("C10", "exploration", govdrv.Rule)
 	govdrv.Run(r, govdrv.Cfg{Prop: "C10", Worlds: vf.N(6, 12), Hist: vf.N(120, 1300), Len: 100, AgreeLen: vf.N(70, 200), SampleOps: 12})
+	// scripted scenario of lib/govdrv (profile "c10"): fee percentages outside 0..100, each field alone and both,
+	// on a node with an authorizer, followed through four settlements
+	const sc = "scenario_started/out-of-range-fee-percentage"
+	r.Require(sc, 5)
+	r.Require(sc+"/authorize_issued", 3)
+	for _, f := range []string{"stakeCost", "peerCost", "both"} {
+		r.Require(sc+"/call_issued/"+f, 5)
+		r.Require(sc+"/call_on_node_with_authorizers/"+f, 3)
+	}
+	r.Require(sc+"/settlement_3+_with_authorizers_on_node", 5)
+	r.Require(sc+"/withdrawFee_issued", 5)
 	r.Finish()
 }
